@@ -238,7 +238,14 @@ def cli_batch(acc, batch):
                 w = W.World(W.Workflow(list(order)), files={}, conf={"backend": "slurm"})
                 with W.Session(w) as s:
                     r = s.gwf(["info"])
-                    acc.extra["cli_invocations"] += 1
+                    named = {}
+                    for nm in ("A", "B", "[AC]"):
+                        rn = s.gwf(["info", nm])
+                        try:
+                            named[nm] = {n: (sorted(v["dependencies"]), sorted(v["dependents"])) for n, v in json.loads(rn.stdout).items()}
+                        except Exception:
+                            named[nm] = f"exit={rn.exit_code} {rn.err_summary()}".replace(s.proj, "<proj>")
+                    acc.extra["cli_invocations"] += 4
                     case = dict(kind="cli", f=f, ko=ko, ki=ki, awd=awd, bwd=bwd, first=order[0].name)
                     try:
                         info = json.loads(r.stdout)
@@ -246,6 +253,9 @@ def cli_batch(acc, batch):
                     except Exception:
                         obs = f"exit={r.exit_code} {r.err_summary()}".replace(s.proj, "<proj>")
                 exp = {"A": ([], ["B"]), "B": (["A"], []), "C": ([], [])}
+                exp_named = {"A": {"A": exp["A"]}, "B": {"B": exp["B"]}, "[AC]": {"A": exp["A"], "C": exp["C"]}}
+                if obs == exp and named != exp_named:
+                    obs = dict(all=obs, named=named)  # `gwf info NAME` must report the same relations for the targets it shows
                 acc.case(key=json.dumps(case, sort_keys=True), outcome="cli ok" if obs == exp else "cli diff", sample=case)
                 if obs != exp:
                     acc.violation(sig=dict(kind="cli", ko=min(ko, 3) if ko in (3, 4, 5) else "rel", ki=min(ki, 3) if ki in (3, 4, 5) else "rel"),
